@@ -3,6 +3,7 @@ import Dalek.Props.C04.Algorithms
 import Dalek.Props.C07.Conversions
 import Dalek.Proofs.RisBatchModel
 import Dalek.Gen.Norm.Clamp.clamp_integer
+import Dalek.Spec.Ed25519
 /-!
 # C15 — the mathematical facts the panic-site table relies on (`Dalek.Model.PanicTable`, class `provedBy`)
 
@@ -165,12 +166,14 @@ theorem verify_batch_sizes_equal (nSigs nMsgs nKeys : Nat)
     let p := batchPointsHint nSigs nKeys
     s.1 = p.1 ∧ s.2 = some s.1 ∧ p.2 = some p.1 ∧ s.1 = 2 * nSigs + 1 := by
   have hk : nKeys = nSigs := by omega
-  subst hk
-  have h1 : 1 + nKeys ≤ usizeMax := by unfold usizeMax; omega
-  have h2 : 1 + nKeys + nKeys ≤ usizeMax := by unfold usizeMax; omega
-  simp only [batchScalarsHint, batchPointsHint, shChain, shOnce, shSlice, shZip, Nat.min_self, h1, h2,
-    Nat.min_eq_left, if_true]
-  omega
+  rw [hk]
+  have h1 : 1 + nSigs ≤ usizeMax := by unfold usizeMax; omega
+  have h2 : 1 + nSigs + nSigs ≤ usizeMax := by unfold usizeMax; omega
+  have e1 : min (1 + nSigs) usizeMax = 1 + nSigs := Nat.min_eq_left h1
+  have e2 : min (1 + nSigs + nSigs) usizeMax = 1 + nSigs + nSigs := Nat.min_eq_left h2
+  simp only [batchScalarsHint, batchPointsHint, shChain, shOnce, shSlice, shZip, Nat.min_self, e1, e2, h1, h2,
+    if_true]
+  exact ⟨trivial, trivial, trivial, by omega⟩
 
 /-- the same fact on lists: the two argument sequences have the same number of elements `2n+1` -/
 theorem verify_batch_lengths_equal {S P Sig Key : Type} (signatures : List Sig) (keys : List Key)
@@ -185,17 +188,17 @@ theorem verify_batch_lengths_equal {S P Sig Key : Type} (signatures : List Sig) 
   omega
 
 /-- and the model of `verify_batch` returns `false` (= `Err`) without reaching the call when the lengths differ -/
-theorem verify_batch_len_mismatch (ops : Dalek.Spec.Ops) (legacy : Bool) (msgs sigs vks : List (List UInt8))
+theorem verify_batch_len_mismatch (ops : Dalek.Spec.Ed25519.Ops) (legacy : Bool) (msgs sigs vks : List (List UInt8))
     (h : msgs.length ≠ sigs.length ∨ sigs.length ≠ vks.length) :
-    Dalek.Spec.verifyBatchWith ops legacy msgs sigs vks = false := by
-  unfold Dalek.Spec.verifyBatchWith
+    Dalek.Spec.Ed25519.verifyBatchWith ops legacy msgs sigs vks = false := by
+  unfold Dalek.Spec.Ed25519.verifyBatchWith
   rw [if_pos]
   rcases h with h | h <;> simp [h]
 
 /-! ## `optional_some_of_all_some` -/
 
 section msm
-open Dalek.Model.ScalarMul Dalek.Model.Recode Dalek.Proofs.ScalarMul
+open Dalek.Model.ScalarMul Dalek.Model.Recode Dalek.Proofs.ScalarMul Dalek.Props.C04.Algorithms
 variable {G : Type} [AddCommGroup G]
 
 /-- **the provided methods' `.expect("should return some point")` never fire** (traits.rs:258 and 378): when
@@ -249,15 +252,11 @@ info: 'Dalek.Props.C15.Facts.batch_invert_acc_nonzero' depends on axioms: [prope
 -/
 #guard_msgs in #print axioms batch_invert_acc_nonzero
 /--
-info: 'Dalek.Props.C15.Facts.batch_invert_acc_nonzero_scalar' depends on axioms: [propext,
- Classical.choice,
- Quot.sound]
+info: 'Dalek.Props.C15.Facts.batch_invert_acc_nonzero_scalar' depends on axioms: [propext, Classical.choice, Quot.sound]
 -/
 #guard_msgs in #print axioms batch_invert_acc_nonzero_scalar
 /--
-info: 'Dalek.Props.C15.Facts.scalar_invariant_high_bit_clear' depends on axioms: [propext,
- Classical.choice,
- Quot.sound]
+info: 'Dalek.Props.C15.Facts.scalar_invariant_high_bit_clear' depends on axioms: [propext, Classical.choice, Quot.sound]
 -/
 #guard_msgs in #print axioms scalar_invariant_high_bit_clear
 /--
